@@ -2175,6 +2175,50 @@ def c07(idx: Index, rep: Report, tier: str) -> None:
     rep.require_min(rule, "per_iteration_flags", 2)
     dnf_conjunctions_kept(idx, rep, "C07.7 T2 conjunction-dropped-only-if-false")
 
+    # UndefinedInitialNumericRemover asks a fluent to be defined before an action *reads* it. Which effects read their
+    # own target is fixed by the effect semantics: increase and decrease do (read-modify-write), an assignment —
+    # conditional or not — does not. The target fluents added to the read expressions are filtered by exactly these
+    # two predicates; anything more makes the action that first defines the fluent wait for the fluent to be defined.
+    rule8 = "C07.8 T7 only-read-modify-write-effects-read-their-target"
+    uinr = [x for x in idx.all_funcs() if x.module.name == "unified_planning.engines.compilers.undefined_initial_numeric_remover"]
+    n8 = 0
+    for f in uinr:
+        for lc in walk_no_nested(f.node):
+            if not isinstance(lc, (ast.ListComp, ast.GeneratorExp, ast.SetComp)) or len(lc.generators) != 1:
+                continue
+            g = lc.generators[0]
+            if not (isinstance(g.target, ast.Name) and isinstance(lc.elt, ast.Attribute) and lc.elt.attr == "fluent" and norm(lc.elt.value) == g.target.id and g.ifs):
+                continue
+            preds = {c.func.attr for t in g.ifs for c in ast.walk(t) if isinstance(c, ast.Call) and isinstance(c.func, ast.Attribute) and norm(c.func.value) == g.target.id and c.func.attr.startswith("is_")}
+            if not preds:
+                continue  # not a selection by effect kind (e.g. the fluents an action *writes*)
+            n8 += 1
+            ok = preds == {"is_increase", "is_decrease"}
+            rep.check(ok, rule8, "the targets counted as read are those of increase / decrease effects", f.loc(lc), construct=f"[{norm(lc.elt)} for … if {' / '.join(sorted(preds))}]", detail="" if ok else "an effect kind that does not read its target (an assignment, also a conditional one) is counted as reading it, or a kind that does is not: the compiled action either requires the fluent to be defined before the very action that defines it (no plan of the original problem survives), or reads an undefined fluent", function=f.qualname)
+        # statement form: `if eff.is_increase() or eff.is_decrease(): <list>.append(eff.fluent)`
+        import re as _re
+        from ..rules2 import path_facts
+
+        cfg8 = None
+        for c in walk_no_nested(f.node):
+            if not (isinstance(c, ast.Call) and call_name(c) in ("append", "add") and len(c.args) == 1 and isinstance(c.args[0], ast.Attribute) and c.args[0].attr == "fluent" and isinstance(c.args[0].value, ast.Name)):
+                continue
+            cfg8 = cfg8 or cfg_of(f)
+            nds = cfg8.node_containing(c)
+            if not nds:
+                continue
+            recv = c.args[0].value.id
+            preds = set()
+            for txt, val in path_facts(cfg8, nds[0]):
+                preds |= set(_re.findall(r"\b" + _re.escape(recv) + r"\.(is_\w+)\(\)", txt))
+            if not preds:
+                continue
+            n8 += 1
+            ok = preds == {"is_increase", "is_decrease"}
+            rep.check(ok, rule8, "the targets counted as read are those of increase / decrease effects", f.loc(c), construct=f"{norm(c)[:50]} under {' / '.join(sorted(preds))}", detail="" if ok else "an effect kind that does not read its target is counted as reading it, or one that does is not (see the comprehension form of this clause)", function=f.qualname)
+    rep.count("target_read_filters", n8)
+    rep.require_min(rule8, "target_read_filters", 2)
+
 
 # ------------------------------------------------------------------------------------ C13
 
@@ -2234,9 +2278,40 @@ def lookup_sentinel(idx: Index, rep: Report, rule: str) -> None:
         rep.check(ok, rule, "the not-found value of the key lookup is None", wr.loc(c), construct=norm(c), detail="" if ok else f"`{norm(default)}` is used as the not-found value: a key that the map sends to that very value (an identity pair k -> k) is treated as absent, the node is rebuilt from its substituted children and keys nested inside it are replaced", function=wr.qualname)
 
 
+def quantifier_result_goes_through_the_handler(idx: Index, rep: Report, rule: str) -> None:
+    """Substituter handles quantifiers itself (the body is substituted with a reduced map), but what it memoises for
+    the quantifier node must still be what the registered handler returns for it (`self.functions[node_type]`, i.e.
+    walk_replace_or_identity: the one place where the node itself is looked up in the map). Every definition of the
+    memoised value that reaches the store is a call of that handler."""
+    from ..dataflow import reaching_defs
+
+    f = idx.func("model.walkers.substituter.Substituter._push_with_children_to_stack")
+    cfg = cfg_of(f)
+    rd = reaching_defs(cfg)
+    handlers = {a.targets[0].id for a in walk_no_nested(f.node) if isinstance(a, ast.Assign) and len(a.targets) == 1 and isinstance(a.targets[0], ast.Name) and isinstance(a.value, ast.Subscript) and norm(a.value.value) == "self.functions"}
+    n = 0
+    for nd in cfg.nodes:
+        a = nd.ast
+        if not (isinstance(a, ast.Assign) and isinstance(a.targets[0], ast.Subscript) and norm(a.targets[0].value) == "self.memoization" and isinstance(a.value, ast.Name)):
+            continue
+        n += 1
+        defs = rd[nd].get(a.value.id, set())
+        bad = []
+        for d in defs:
+            v = getattr(d.ast, "value", None)
+            ok_d = isinstance(d.ast, ast.Assign) and isinstance(v, ast.Call) and ((isinstance(v.func, ast.Name) and v.func.id in handlers) or (isinstance(v.func, ast.Subscript) and norm(v.func.value) == "self.functions"))
+            if not ok_d:
+                bad.append(d)
+        ok = bool(defs) and not bad
+        rep.check(ok, rule, "the value memoised for a quantifier node is the handler's result", f.loc(a), construct=f"{norm(a)[:60]} — " + ("every reaching definition calls self.functions[node_type]" if ok else f"`{norm(bad[0].ast)[:60]}` also reaches it" if bad else "no definition found"), detail="" if ok else "on some path the quantifier node is memoised without having been passed to its handler: the handler is where the node itself is matched against the substitution map, so a key that is a quantified expression is left unreplaced on that path (and replaced on the others)", function=f.qualname)
+    rep.count("quantifier_memo_stores", n)
+    rep.require_min(rule, "quantifier_memo_stores", 1)
+
+
 def c13(idx: Index, rep: Report, tier: str) -> None:
     identity_rebuild_agrees(idx, rep, "C13.6 T7 identity-rebuild-agrees")
     lookup_sentinel(idx, rep, "C13.7 lookup-sentinel")
+    quantifier_result_goes_through_the_handler(idx, rep, "C13.8 def-use quantifier-result-goes-through-the-handler")
     """Inside a quantifier a pair (k -> v) may be applied only if that cannot capture: besides the variables of the
     key k, the variables of the inserted value v must be compared with the bound variables (and the bound variable
     renamed, or the pair set aside). Substituter consults get_free_variables(k) only."""
@@ -2437,6 +2512,35 @@ def c15(idx: Index, rep: Report, tier: str) -> None:
                 n += 1
                 rep.bad(rule, f"{f.short}: bounds are kept exact", f.loc(c), construct=norm(c)[:80], detail="a bound is replaced by an approximation (limit_denominator caps the denominator at 10**6): the inferred interval no longer contains every value the expression can take", function=f.qualname)
     rep.ok(rule, "type_manager.py / type_checker.py / types.py: no rounding call", "unified_planning/model/type_manager.py:1", construct=f"{n} offending calls")
+
+    # the inferred type of an arithmetic node is a function of its operands' types alone: the handlers compute the
+    # bounds by interval arithmetic over `args` and never look at the node itself (its shape, the identity of its
+    # children) — a refinement read off the syntax is sound only for the shapes its author thought of
+    rule6 = "C15.6 T1 arithmetic-types-are-compositional"
+    tc = idx.cls("model.walkers.type_checker.TypeChecker")
+    n6 = 0
+    for hname in ("walk_plus", "walk_minus", "walk_times", "walk_div"):
+        h = tc.methods.get(hname)
+        if h is None:
+            raise AnalysisError(f"{rule6}: TypeChecker.{hname} vanished")
+        params = h.params()
+        node_param = params[1] if len(params) > 1 else None
+        n6 += 1
+        uses = []
+        for st in ast.walk(h.node):
+            if isinstance(st, ast.stmt) and not isinstance(st, (ast.Raise, ast.FunctionDef)):
+                own = [st.test] if isinstance(st, (ast.If, ast.While)) else ([] if isinstance(st, (ast.For, ast.With, ast.Try)) else [st])
+                if isinstance(st, ast.Assert):
+                    own = [st.test]
+                if isinstance(st, ast.For):
+                    own = [st.iter]
+                for part in own:
+                    for x in ast.walk(part):
+                        if isinstance(x, ast.Name) and x.id == node_param and isinstance(x.ctx, ast.Load) and not any(isinstance(y, ast.stmt) and y is not st and any(z is x for z in ast.walk(y)) for y in ast.walk(part) if isinstance(y, ast.stmt) and y is not st):
+                            uses.append((st, x))
+        ok = not uses
+        rep.check(ok, rule6, f"{hname} computes the bounds from the operand types only", h.loc(uses[0][0]) if uses else h.loc(), construct=f"{hname}: " + ("reads only args" if ok else f"reads `{node_param}` in `{norm(uses[0][0])[:70]}`"), detail="" if ok else "the inferred interval depends on the syntax of the node, not only on the intervals of its operands: a special case keyed on the shape (all factors identical, a literal operand, …) holds for the shapes it was written for and excludes reachable values for the others (x*x*x with a negative x)", function=h.qualname)
+    rep.count("arithmetic_handlers", n6)
 
 
 # ------------------------------------------------------------------------------------ C14
